@@ -83,7 +83,10 @@ func (s *Server) clientIDFromDNSContext(pctx *proxy.DNSContext) (clientID string
 		return "", nil
 	}
 
-	hostSrvName := s.conf.TLSConf.ServerName
+	s.serverLock.RLock()
+	hostSrvName, strictSNICheck := s.conf.TLSConf.ServerName, s.conf.TLSConf.StrictSNICheck
+	s.serverLock.RUnlock()
+
 	if hostSrvName == "" {
 		return "", nil
 	}
@@ -96,7 +99,7 @@ func (s *Server) clientIDFromDNSContext(pctx *proxy.DNSContext) (clientID string
 	clientID, err = clientIDFromClientServerName(
 		hostSrvName,
 		cliSrvName,
-		s.conf.TLSConf.StrictSNICheck,
+		strictSNICheck,
 	)
 	if err != nil {
 		return "", fmt.Errorf("clientid check: %w", err)
